@@ -288,6 +288,8 @@ class SiteCx:
                     if s == "Z":
                         continue
                     s2 = s.replace(":", "")
+                    if not re.match(r"^[+-][0-9]{4}$", s2) or not s2.isascii():
+                        return None  # a member of the offset language that is neither "Z" nor a signed hhmm (e.g. `z` under (?i)) reaches the numeric branch
                     vals += [int(s2[1:3]), int(s2[3:5])]
                 return (min(vals), max(vals))
             if all(s.isdigit() and s.isascii() for s in lang):
@@ -804,6 +806,16 @@ def d_call(cx, bi, t):
         if xf is not None and entails(cx.stable_facts(bi), lf_add(lf_add(xf, lf_const(1)), ln, -1)):
             return ("loop-bound", "remove(%s) with index < length on every path here" % lf_str(xf))
         return None
+    if re.search(r"Vec::<T, A>::drain$", c):
+        # drain(lo..hi) panics unless lo <= hi <= len (for `lo..=hi`: hi_exclusive = hi + 1; hi < len also rules out usize::MAX)
+        rf = range_forms(cx, t["args"][1])
+        if rf is not None:
+            lo, hi = rf
+            ln = {"len(%s)" % cx.lin.root_key(t["args"][0]): 1, 1: 0}
+            fc = cx.stable_facts(bi)
+            if entails(fc, lf_add(lo, hi, -1)) and entails(fc, lf_add(hi, ln, -1)):
+                return ("loop-bound", "drain(%s .. %s) with start <= end <= length on every path here" % (lf_str(lo), lf_str(hi)))
+        return None
     if re.search(r"String::truncate$", c):
         gs, sl = cx.group_of(t["args"][0])
         g = cx.iso().get(list(gs)[0]) if len(gs) == 1 else None
@@ -824,6 +836,29 @@ def d_call(cx, bi, t):
         return None
     if re.search(r"^core::panicking::", c):
         return d_panic_call(cx, bi, t)
+    return None
+
+
+def range_forms(cx, operand):
+    """(lo, hi_exclusive) linear forms of a usize range operand: `a..b`, `a..=b`, `..b`, `..=b`; None if not recognised
+    (`a..` and `..` need the length and are not used for removals here)."""
+    b, lin = cx.b, cx.lin
+    od = b.origin_def(operand)
+    if od and od[0] == "def" and od[1]["kind"] == "call" and re.search(r"ops::RangeInclusive::<Idx>::new$", od[1]["term"]["callee"]):
+        lo, hi = lin.form(od[1]["term"]["args"][0]), lin.form(od[1]["term"]["args"][1])
+        return (lo, lf_add(hi, lf_const(1))) if lo is not None and hi is not None else None
+    if od and od[0] == "def" and od[1]["kind"] == "assign" and od[1]["stmt"]["rv"]["k"] == "aggregate":
+        rv = od[1]["stmt"]["rv"]
+        kind = str(rv.get("adt", "")).split("::")[-1]
+        fs = [lin.form(o) for o in rv["ops"]]
+        if any(f is None for f in fs):
+            return None
+        if kind == "Range" and len(fs) == 2:
+            return fs[0], fs[1]
+        if kind == "RangeTo" and len(fs) == 1:
+            return lf_const(0), fs[0]
+        if kind == "RangeToInclusive" and len(fs) == 1:
+            return lf_const(0), lf_add(fs[0], lf_const(1))
     return None
 
 
@@ -870,10 +905,14 @@ def root_never_removed(cx, vec_local):
         if d["kind"] != "mutcall":
             continue
         c = d["term"]["callee"]
-        if re.search(r"Vec::<T, A>::(clear|truncate|pop|drain|retain\w*|swap_remove|split_off|dedup\w*)$", c):
+        if re.search(r"Vec::<T, A>::(clear|truncate|pop|retain\w*|swap_remove|split_off|dedup\w*)$", c):
             return False
-        if re.search(r"Vec::<T, A>::remove$", c):
-            f = lin.form(d["term"]["args"][1])
+        if re.search(r"Vec::<T, A>::(remove|drain)$", c):
+            if c.endswith("drain"):
+                rf = range_forms(cx, d["term"]["args"][1])
+                f = rf[0] if rf else None  # the lowest index removed
+            else:
+                f = lin.form(d["term"]["args"][1])
             if f is None:
                 return False
             syms = [k for k in f if k != 1]
